@@ -31,6 +31,7 @@ import (
 
 	"github.com/fxamacker/cbor/v2"
 
+	"github.com/mycoria/mycoria/frame"
 	"github.com/mycoria/mycoria/m"
 	"github.com/mycoria/mycoria/router"
 
@@ -251,7 +252,7 @@ func TestC08(t *testing.T) {
 			rebuild := func(ls []c08Layer) {
 				data = append(data[:parts.apxStart:parts.apxStart], c08Build(ls, attacker, ctx)...)
 			}
-			op := c.Weighted("op", 8, 6, 8, 5, 6, 5, 5, 7, 9, 5, 4, 7, 3, 3, 9, 6)
+			op := c.Weighted("op", 8, 6, 8, 5, 6, 5, 5, 7, 9, 5, 4, 7, 3, 3, 9, 6, 5)
 			switch op {
 			case 0:
 				i := c.Uniform("flip.body", parts.msgStart, parts.authStart-1)
@@ -439,6 +440,18 @@ func TestC08(t *testing.T) {
 				data = append(data[:parts.apxStart:parts.apxStart], c08Build(ls, atk.ID, ctx)...)
 				deliverLink = V.Links[atk.IP()]
 				opName = fmt.Sprintf("attacker-wraps-%d-own-layers", n)
+			case 16: // the frame re-typed to the other hop-ping type (the type byte is signed), optionally with an altered body
+				if frame.MessageType(data[4]) == frame.RouterHopPing {
+					data[4] = byte(frame.RouterHopPingDeprecated)
+				} else {
+					data[4] = byte(frame.RouterHopPing)
+				}
+				if c.Bool("retype.body") {
+					i := c.Uniform("retype.flip", parts.msgStart, parts.authStart-1)
+					data[i] ^= 1 << c.Uniform("flip.bit", 0, 7)
+				}
+				bodyIntact = false
+				opName = "re-typed-hop-ping"
 			case 15: // the delivering peer signs its own record again, with other labels (valid)
 				if len(layers) >= 1 && layers[0].att.Router.IP == attacker.Addr.IP {
 					ls := append([]c08Layer(nil), layers...)
